@@ -35,6 +35,7 @@ fn spec_name(p: &PointSpec) -> &'static str {
         PointSpec::Former(_) => "former",
         PointSpec::Extreme(..) => "extreme",
         PointSpec::AffineComb(_) => "affine_comb",
+        PointSpec::NonFinite(..) => "non_finite",
     }
 }
 
